@@ -1198,6 +1198,7 @@ class BufferedWriter(IndexWriter):
 
         self._make_ram_index()
         self.bufferedcount = 0
+        self._closed = False
 
         # Start timer
         if self.period:
@@ -1222,8 +1223,10 @@ class BufferedWriter(IndexWriter):
     def reader(self, **kwargs):
         from whoosh.reading import MultiReader
 
-        reader = self.writer.reader()
+        # Take both readers under the lock, so a commit in another thread (the
+        # timer) can't move the buffered documents to disk in between
         with self.lock:
+            reader = self.writer.reader()
             ramreader = self._get_ram_reader()
 
         # If there are in-memory docs, combine the readers
@@ -1244,23 +1247,31 @@ class BufferedWriter(IndexWriter):
         self.commit(restart=False)
 
     def commit(self, restart=True):
-        if self.period:
-            self.timer.cancel()
-
+        # The whole flush happens under the lock: the timer thread and the
+        # threads using this object must not see (or swap) the underlying
+        # writer and the in-memory index half-way
         with self.lock:
+            if self._closed:
+                # A timer that fired while close() was running
+                return
+            if self.period:
+                self.timer.cancel()
+
             ramreader = self._get_ram_reader()
             self._make_ram_index()
 
-        if self.bufferedcount:
-            self.writer.add_reader(ramreader)
-        self.writer.commit(**self.commitargs)
-        self.bufferedcount = 0
+            if self.bufferedcount:
+                self.writer.add_reader(ramreader)
+            self.writer.commit(**self.commitargs)
+            self.bufferedcount = 0
 
-        if restart:
-            self.writer = self.index.writer(**self.writerargs)
-            if self.period:
-                self.timer = threading.Timer(self.period, self.commit)
-                self.timer.start()
+            if restart:
+                self.writer = self.index.writer(**self.writerargs)
+                if self.period:
+                    self.timer = threading.Timer(self.period, self.commit)
+                    self.timer.start()
+            else:
+                self._closed = True
 
     def add_reader(self, reader):
         # Pass through to the underlying on-disk index
@@ -1280,6 +1291,12 @@ class BufferedWriter(IndexWriter):
     def update_document(self, **fields):
         with self.lock:
             IndexWriter.update_document(self, **fields)
+
+    def delete_by_query(self, q, searcher=None):
+        # (Document numbers found by the search must still be valid when
+        # they are deleted)
+        with self.lock:
+            return IndexWriter.delete_by_query(self, q, searcher=searcher)
 
     def delete_document(self, docnum, delete=True):
         with self.lock:
